@@ -3383,6 +3383,9 @@ class Interp:
         if name == "range":
             iv = [self.intval(a, n) for a in args]
             out_ = [Poly.const(i) for i in range(*iv)]
+            if len(args) == 3 and id(args[1]) in self.taint and iv[2] >= 2:
+                self.events.append(("size-threshold", "%s taken modulo / divided by %s at %s" % (
+                    "a collection size" if self.taint[id(args[1])][0] == "len" else "an iteration counter", iv[2], self.where(n))))
             if len(args) == 1 or any(id(a) in self.taint for a in args):
                 for x_ in out_:
                     self.taint[id(x_)] = ("counter", x_)      # a loop counter: behaviour keyed on it is recorded (see `cmp`)
@@ -3472,6 +3475,10 @@ class Interp:
                 return args[1]
             raise PathRaise("StopIteration", self.where(n))
         if name == "divmod":
+            t_ = self.taint.get(id(args[0]))
+            if t_ is not None and isinstance(args[1], Poly) and args[1].const_value() is not None and args[1].const_value() >= 2:
+                self.events.append(("size-threshold", "%s taken modulo / divided by %s at %s" % (
+                    "a collection size" if t_[0] == "len" else "an iteration counter", args[1].const_value(), self.where(n))))
             a_, b_ = self.scalar(args[0], n), self.scalar(args[1], n)
             if a_.const_value() is not None and b_.const_value() is not None:
                 q_, r_ = divmod(Fraction(a_.const_value()), Fraction(b_.const_value()))
